@@ -27,6 +27,10 @@ def c_op(o):
         return C("OCtxEnter", Nat(o[1]))
     if k == "ctxexit":
         return C("OCtxExit")
+    if k == "runenter":       # action.run(f): f's body is the operations up to the matching runexit
+        return C("OCtxEnter", Nat(o[1]))
+    if k == "runexit":
+        return C("OCtxExit")
     if k == "finish":
         return C("OFinish", Nat(o[1]), progs.c_opt(o[2], progs.c_exn))
     if k == "log":
@@ -149,11 +153,23 @@ def run_case(case):
     r = _Runner(case)
     ops = ctx_ops(case)
     if not case.get("mt"):
-        for c, o in ops:
-            try:
-                r.do(c, o)
-            except progs.LoggingRaised:
-                break
+        it = iter(ops)
+
+        def drive(inside_run):
+            for c, o in it:
+                if o[0] == "runenter":
+                    r.stack.setdefault(c, []).append(o[1])
+                    r.it.actions[o[1]].run(lambda: drive(True))
+                    r.stack[c].pop()
+                elif o[0] == "runexit":
+                    if inside_run:
+                        return
+                else:
+                    r.do(c, o)
+        try:
+            drive(False)
+        except progs.LoggingRaised:
+            pass
         return r.finish(case)
     # one real thread per execution context; the controller hands out one operation at a time
     import threading
@@ -164,17 +180,38 @@ def run_case(case):
     failed = []
 
     def body(c):
-        for o in queues[c]:
-            turn[c].acquire()
-            try:
-                if not failed:
-                    r.do(c, o)
-            except progs.LoggingRaised:
-                failed.append(c)
-            except BaseException as e:
-                failed.append("%s:%s" % (c, type(e).__name__))
-            finally:
-                done.release()
+        it = iter(queues[c])
+
+        def drive(inside_run):
+            for o in it:
+                turn[c].acquire()
+                nested = None
+                try:
+                    if failed:
+                        pass
+                    elif o[0] == "runenter":
+                        nested = o[1]
+                    elif o[0] == "runexit":
+                        if inside_run:
+                            return
+                    else:
+                        r.do(c, o)
+                except progs.LoggingRaised:
+                    failed.append(c)
+                except BaseException as e:
+                    failed.append("%s:%s" % (c, type(e).__name__))
+                finally:
+                    done.release()
+                if nested is not None:
+                    # action.run(f), called from this thread: the following operations of this thread,
+                    # up to the matching runexit, are f's body
+                    r.stack.setdefault(c, []).append(nested)
+                    try:
+                        r.it.actions[nested].run(lambda: drive(True))
+                    except BaseException as e:
+                        failed.append("%s:run:%s" % (c, type(e).__name__))
+                    r.stack[c].pop()
+        drive(False)
     threads = [threading.Thread(target=body, args=(c,), daemon=True) for c in ctxs]
     for t in threads:
         t.start()
@@ -272,6 +309,14 @@ def gen_script_mt(rng, n_ops=16):
             open_with[c].append(h)
         elif r < 0.7 and open_with[c]:
             ops.append([c, ["exit", open_with[c].pop(), g.exn() if rng.random() < 0.3 else None]])
+        elif r < 0.8 and any(open_with[c2] for c2 in open_with):
+            # action.run(f) called from this thread on an action that some thread (possibly another one)
+            # is inside of: f runs with that action current here, and this thread's context is restored after
+            h = rng.choice([h for c2 in open_with for h in open_with[c2]])
+            ops.append([c, ["runenter", h]])
+            ops.append([c, ["probe"]])
+            ops.append([c, ["log", rng.randrange(10, 14), g.fields(1, 32, 36)]])
+            ops.append([c, ["runexit"]])
         else:
             ops.append([c, ["log", rng.randrange(10, 14), g.fields(1, 32, 36)]])
         ops.append([c, ["probe"]])
